@@ -26,6 +26,8 @@ verus! {
 //@ include prelude/location_hash.rs
 //@ include prelude/fmt_option.rs
 //@ include prelude/scalar_hash.rs
+//@ include prelude/hashmap_fill.rs
+//@ include prelude/ordering_cmp.rs
 //@ include units/C11/error_from.rs
 //@ mode contracts-only C15
 //@ include units/C15/error_from_string.rs
@@ -82,12 +84,14 @@ pub mod constants {
 use super::*;
 use super::il;
 use super::il::{Scalar, Expression, Env, EvalR, eval_spec, expr_sane, expr_wf, expr_bits, expr_scalars, occurs};
+use super::graph;
 use super::il_subst::{replace_spec, repl_g, map_spec, map_result, env_upd, lemma_subst_eval};
 use super::executor::eval;
 use std::collections::HashMap;
 use std::cmp::PartialOrd;
 use vstd::std_specs::iter::IteratorSpec;
 broadcast use {scalar_hash::axiom_scalar_obeys_key_model, vstd::std_specs::hash::axiom_random_state_builds_valid_hashers};
+//@ include units/C13/constants_spec.rs
 //@ include units/C13/constants_core.rs
 proof fn vf_canary_constants() ensures false {}
 } // mod constants
